@@ -230,6 +230,96 @@ VIOLATED = bool(bad); DETAIL = "TaggedFields round trip (value, decoded): %r" % 
 '''
 
 
+def _leb128(v):
+    out = bytearray()
+    while True:
+        b7 = v & 0x7F
+        v >>= 7
+        if v:
+            out.append(b7 | 0x80)
+        else:
+            out.append(b7)
+            return bytes(out)
+
+
+def primitive_boundaries(tier):
+    """'varints at every length boundary': the unsigned varint codec against an independent LEB128 encoder for every
+    value up to 2^17 and bands around every 7-bit boundary, and every compact (varint-prefixed) type at lengths
+    around the values where the prefix grows by a byte."""
+    from aiokafka.protocol import types as T
+    fails, cases = [], 0
+    vals = set(range(0, 1 << (17 if tier == "quick" else 22)))
+    for k in (7, 14, 21, 28):
+        vals.update(range(max(0, (1 << k) - 300), (1 << k) + 300))
+        vals.update(range((1 << k) * 2 - 300, (1 << k) * 2 + 300))
+        vals.update(((1 << k) * 128 - 1, (1 << k) * 127))
+    vals.update((2**31 - 1, 2**31, 2**32 - 2, 2**32 - 1))
+    vals = sorted(v for v in vals if 0 <= v < 2**32)
+    for v in vals:
+        cases += 1
+        try:
+            enc = T.UnsignedVarInt32.encode(v)
+            dec = T.UnsignedVarInt32.decode(io.BytesIO(enc + b"\xAA"))
+        except Exception as e:
+            enc, dec = b"", "raised %s" % type(e).__name__
+        if enc != _leb128(v) or dec != v:
+            fails.append({"type": "UnsignedVarInt32", "value": v, "encoded": enc.hex(), "want": _leb128(v).hex(), "decoded": dec})
+            if len(fails) >= 10:
+                break
+    lens = (0, 1, 2, 126, 127, 128, 129, 255, 256, 16382, 16383, 16384, 16385)
+    for n in lens:
+        for name, codec, val in (
+                ("CompactString", T.CompactString("utf-8"), "x" * n),
+                ("CompactBytes", T.CompactBytes, b"\x80" * n),
+                ("CompactArray(Int8)", T.CompactArray(T.Int8), [(-1) ** i for i in range(n)]),
+                ("TaggedFields", T.TaggedFields, {0: b"\x80" * n} if n else {}),
+                ("TaggedFields/2", T.TaggedFields, {n: b"a", n + 1: b"\x81" * (n % 300)}),
+                ("TaggedFields/inserted-in-descending-tag-order", T.TaggedFields, {n + 7: b"z", n: b"a"}),
+                ("String", T.String("utf-8"), "y" * n),
+                ("Bytes", T.Bytes, b"\x7f" * n),
+                ("Array(Int16)", T.Array(T.Int16), [i - 5 for i in range(min(n, 300))])):
+            cases += 1
+            try:
+                enc = codec.encode(val)
+                buf = io.BytesIO(enc + b"\xAA\xBB")
+                dec = codec.decode(buf)
+                rest = buf.read()
+            except Exception as e:
+                dec, rest = "raised %s: %s" % (type(e).__name__, e), b"\xAA\xBB"
+            if norm(dec) != norm(val) or rest != b"\xAA\xBB":
+                fails.append({"type": name, "length": n, "decoded": repr(dec)[:120], "left_in_buffer": rest.hex()})
+    emit({"name": "wire-type-boundaries", "exhaustive": True, "cases": cases, "distinct_nontrivial": cases,
+          "bound": "UnsignedVarInt32 against an independent LEB128 encoder for every value below 2^%d, +-300 around 2^7k and "
+                   "2^(7k+1), and the 32-bit extremes; compact strings/bytes/arrays, tagged fields, plain strings/bytes/arrays "
+                   "at lengths %r (the decoder must consume exactly the encoded bytes)" % (17 if tier == "quick" else 22, list(lens)),
+          "failures": fails[:10], "failures_total": len(fails), "replay": {"script": BOUNDARY_SCRIPT}})
+
+
+BOUNDARY_SCRIPT = '''
+import io
+from aiokafka.protocol import types as T
+bad = []
+for v in (127, 128, 129, 16383, 16384, 16385, 2097151, 2097152, 268435455, 268435456, 4294967295):
+    enc = T.UnsignedVarInt32.encode(v)
+    try:
+        dec = T.UnsignedVarInt32.decode(io.BytesIO(enc + b"\\xAA"))
+    except Exception as e:
+        dec = "raised %s" % type(e).__name__
+    if dec != v:
+        bad.append((v, enc.hex(), dec))
+for n in (126, 127, 128, 16383):
+    s = "x" * n
+    c = T.CompactString("utf-8")
+    try:
+        dec = c.decode(io.BytesIO(c.encode(s) + b"\\xAA"))
+    except Exception as e:
+        dec = "raised %s" % type(e).__name__
+    if dec != s:
+        bad.append(("CompactString of %d bytes" % n, c.encode(s)[:3].hex(), repr(dec)[:40]))
+VIOLATED = bool(bad); DETAIL = "varint-prefixed values that do not round-trip (value, encoding, decoded): %r" % (bad[:4],)
+'''
+
+
 def main():
     ap = argparse.ArgumentParser()
     ap.add_argument("--tier", default="quick")
@@ -241,6 +331,7 @@ def main():
     enum_builder_arity()
     enum_schema_closure(structs, resps)
     roundtrip(structs, resps, a.tier, a.seed)
+    primitive_boundaries(a.tier)
 
 
 if __name__ == "__main__":
